@@ -97,6 +97,29 @@ def table(nested):
     return doc
 
 
+def tree_of(doc, i=1):
+    """Node table -> nested tree of dicts {k, t, v, keys, kids: [trees]} (anchors dropped); inverse of table_of."""
+    n = doc[i - 1]
+    return {"k": n["k"], "t": n["t"], "v": n["v"], "keys": [dict(k) for k in n["keys"]],
+            "kids": [tree_of(doc, c) for c in n["kids"]]}
+
+
+def table_of(tree):
+    """Nested tree (see tree_of) -> pre-order node table."""
+    doc = []
+
+    def add(t, par):
+        n = node(t["k"], t["t"], t["v"], par)
+        n["keys"] = [dict(k) for k in t["keys"]]
+        doc.append(n)
+        me = len(doc)
+        for c in t["kids"]:
+            n["kids"].append(add(c, me))
+        return me
+    add(tree, 0)
+    return doc
+
+
 # --------------------------------------------------------------------------- YAML text
 def _qstr(s):
     out = s.replace("\\", "\\\\").replace('"', '\\"').replace("\n", "\\n").replace("\t", "\\t")
